@@ -97,6 +97,11 @@ def check(run):
     run.floor("F-LAZY/getters", n, 3)
     lazy.check_no_overwrite(run, P, keys={"edge_node_connectivity", "face_edge_connectivity", "n_nodes_per_face"}, files=(CONN,))
     _counts(run, P)
+    # the per-grid side tables (inverse_indices, fill_value_mask) must not be written into the module-level attribute template:
+    # a later grid with a supplied edge table would inherit them and build face_edge_connectivity from a foreign table
+    from ..rules.common import dataflow, emit
+    R = dataflow(P, run.tier)
+    emit(run, R, {"GLOBAL/write"}, files=[CONN])
 
 
 def _closing_node(run, f, closed):
